@@ -12,7 +12,7 @@ CONSTANT TraceFile
 Trace == ndJsonDeserialize(TraceFile)
 Range(s) == { s[i] : i \in DOMAIN s }
 
-Images == {"img1", "img2"}
+Images == {"quay.io/verif/app:v1", "quay.io/verif/app:v2"}
 
 VARIABLES l, waiting, lw
 vars == <<l, waiting, lw>>
